@@ -23,6 +23,27 @@ CLAIMS = {
         "Trusts CPython's struct semantics and the analyser; idioms other than struct.unpack/unpack_from/int.from_bytes "
         "yield exit 2 (analysis error), never a verdict.",
         "DESIGN.md §4 C01"),
+    "C04": (
+        "effect-contract analysis of the pairing state machine: symbolic effects with path conditions, loop membership and "
+        "statement order, return-term matching against re-derived parse_event_list terms",
+        "Decides necessary structural conditions K1-K9 of the three-method state machine (thread keying, only the event or a "
+        "fresh container stored, unconditional window reset before the append-to-all loop on START, guarded "
+        "append-then-pop-then-decode on END, append-and-decode on NONE/ALL, domain selection by the trace-family registry, "
+        "totality of the qualifier table, the generator yielding exactly the non-None results in order). The window contents "
+        "as a function of an arbitrary history are not decided: each K is such that breaking it changes the traces of some "
+        "history, which the seeded-fault self-test demonstrates.",
+        "Histories themselves are not enumerated (that would be a different technique).",
+        "DESIGN.md §4 C04"),
+    "C05": (
+        "effect enumeration over all registered decoders and parser methods (aliases resolved), classification of every "
+        "write/read of parser state by its first key",
+        "Decides the necessary condition for schedule independence: the only state that outlives one decoder invocation is "
+        "either keyed first by the emitting thread's id or one of the frozen by-design global tables; no scalar slot is "
+        "written by one invocation and read by another; no module/class-level object is mutated. Equality of per-thread "
+        "results across interleavings is argued from this, not checked.",
+        "The by-design tables (threads_pids, pids_names, global_strings, tids_names, dyld_*) are excluded by the property's own "
+        "quantifier; they are frozen in the rule with reasons.",
+        "DESIGN.md §4 C05"),
     "C07": (
         "enumeration of partial operations (table lookups, constant indexes into possibly-short lists, dereferences of "
         "possibly-None values) from symbolic interpretation, each discharged by guard reasoning over its path condition",
